@@ -379,6 +379,45 @@ class C06(core.Check):
                 got = [rank.get(id(e), 999) for e in r]
                 if got != exp:
                     return '%s on %s %s returned %s, brute force over the scope gives %s' % (json.dumps(q), kind, idx, got, exp)
+        # the same searches asked of the document with root=<element>: an indexed parser answers as the plain parser does (the scope
+        # of root= is the plain parser's; C06's own scopes are checked above)
+        import AdvancedHTMLParser as A
+        html = c02.render(case['toks'], None)
+        answers = []
+        for pcls in (A.AdvancedHTMLParser, A.IndexedAdvancedHTMLParser):
+            pr = pcls()
+            pr.parseStr(html)
+            if pr.getRoot() is None:
+                return None
+            pels = pc.preorder(pr.getRoot())
+            prank = {id(e): i for i, e in enumerate(pels)}
+            row = []
+            for qd in case['queries']:
+                q = qd['q']
+                if qd['recv'] != 'elem' or q[0] not in ('tagname', 'name', 'class', 'attr', 'attrvalues', 'id') or self._sat(q) is None:
+                    continue
+                e = pels[int(qd['sel'][0] * len(pels)) % len(pels)]
+                try:
+                    if q[0] == 'tagname':
+                        r = pr.getElementsByTagName(q[1], root=e)
+                    elif q[0] == 'name':
+                        r = pr.getElementsByName(q[1], root=e)
+                    elif q[0] == 'class':
+                        r = pr.getElementsByClassName(q[1], root=e)
+                    elif q[0] == 'attr':
+                        r = pr.getElementsByAttr(q[1], q[2], root=e)
+                    elif q[0] == 'attrvalues':
+                        r = pr.getElementsWithAttrValues(q[1], set(q[2]), root=e)
+                    else:
+                        r = pr.getElementById(q[1], root=e)
+                except Exception as ex:
+                    return '%s with root=<%s> on %s raised %s' % (json.dumps(q), e.tagName, pcls.__name__, type(ex).__name__)
+                got = (None if r is None else prank.get(id(r), 999)) if q[0] == 'id' else [prank.get(id(x), 999) for x in r]
+                row.append((json.dumps(q), prank[id(e)], got))
+            answers.append(row)
+        for x, y in zip(answers[0], answers[1]):
+            if x != y:
+                return '%s with root=element #%d: the plain parser returns %s, the indexed parser %s' % (x[0], x[1], x[2], y[2])
         return None
 
     @staticmethod
